@@ -16,7 +16,7 @@ from .common import describe_violation, result, compare_nlps, bind_positional
 
 PROP = 'C13'
 LEVEL = 'translation_validation'
-OPS = ['Q_sample', 'Q_value', 'Q_jac', 'SOLVE', 'SV', 'SI', 'ST', 'CC', 'AO', 'M', 'S', 'T', 'T0', 'TF', 'T0F']
+OPS = ['Q_sample', 'Q_value', 'Q_jac', 'SOLVE', 'SV', 'SVC', 'SI', 'ST', 'CC', 'AO', 'M', 'S', 'T', 'T0', 'TF', 'T0F']
 META = {
     'rule': 'instance = history: declare; transcribe; then a sequence over {sample, value, jacobian, solve_limited, set_value, set_initial, subject_to, clear_constraints, '
             'add_objective, method, solver, set_T, set_t0 (number and FreeTime)} of length <=2 (quick, exhaustive) / 3 (thorough, sampled).  The evolved OCP and a FRESH OCP written with the final '
@@ -24,7 +24,7 @@ META = {
             'outcome of an edit after transcription: equal NLP or an exception; silently different = violation.  distinct = by history',
     'functions': ['rockit/ocp.py:_transcribed/_transcribe/_untranscribe/solver/solve_limited', 'rockit/stage.py:_set_transcribed and every mutator (set_T, set_t0, subject_to, clear_constraints, add_objective, method, set_value, set_initial)',
                   'rockit/direct_method.py:main_transcribe/inherit/untranscribe', 'rockit/sampling_method.py:clean/untranscribe'],
-    'bounds': 'histories enumerated (not symbolic) up to length 2 exhaustively / 3 sampled over 15 operations x base method in {MS, SS, DC}; N=2, M in {1,2}; plus edits (subject_to, add_objective, set_T, clear_constraints) made on a sub-stage of a two-stage OCP after a transcription',
+    'bounds': 'histories enumerated (not symbolic) up to length 2 exhaustively / 3 sampled over 16 operations x base method in {MS, SS, DC}; N=2, M in {1,2}; plus edits (subject_to, add_objective, set_T, clear_constraints) made on a sub-stage of a two-stage OCP after a transcription',
     'outside': 'longer histories; callbacks; external methods; the numeric result of a full solve (only the iteration limit in effect is observed through sol.stats)',
     'assumptions': ['variables of the evolved and the fresh transcription correspond by creation order', 'reals for floats'],
 }
@@ -32,7 +32,8 @@ META = {
 
 def base_spec():
     s = copy.deepcopy(fam.ode_core()[0])
-    s.objective = [integral(X(0) * X(0) + U(0) * U(0)), at_tf(X(1)) * Pg('a')]
+    s.params = list(s.params) + [Sym('b', value=Fr(7, 4))]
+    s.objective = [integral(X(0) * X(0) + U(0) * U(0)), at_tf(X(1)) * Pg('a') + Pg('b') * at_t0(X(1))]
     s.cons = [Con('<=', X(0), 3), Con('==', at_t0(X(0)), 1), Con('<=<=', -2, 2, mid=U(0))]
     s.initial = [(X(1), Fr(1, 2))]
     s.t0, s.T = ('num', Fr(0)), ('num', Fr(1))
@@ -82,6 +83,12 @@ def apply_op(op, b, spec, cfg, state):
         v = Fr(5 + n, 2)
         ocp.set_value(b.psym['a'], float(v))
         [p for p in spec.params if p.name == 'a'][0].value = v
+    elif op == 'SVC':
+        # value of a simple concatenation of parameters
+        va, vb = Fr(9 + n, 2), Fr(11 + n, 4)
+        ocp.set_value(ca.vertcat(b.psym['a'], b.psym['b']), ca.DM([float(va), float(vb)]))
+        [p for p in spec.params if p.name == 'a'][0].value = va
+        [p for p in spec.params if p.name == 'b'][0].value = vb
     elif op == 'SI':
         v = Fr(3 + n, 4)
         ocp.set_initial(b.xel[0], float(v))
@@ -222,7 +229,7 @@ def run(item):
             rejected = 're-transcription raised: %s' % e
     if rejected is not None:
         # an edit that is rejected is an accepted outcome; queries and value/guess updates must never raise
-        if all(o in ('Q_sample', 'Q_value', 'Q_jac', 'SOLVE', 'SV', 'SI') for o in hist):
+        if all(o in ('Q_sample', 'Q_value', 'Q_jac', 'SOLVE', 'SV', 'SVC', 'SI') for o in hist):
             viol.append({'property': PROP, 'key': 'query-or-update-raised', 'label': str(hist), 'detail': rejected, 'cfg': repr(cfg), 'spec': repr(spec)})
         res = {'stats': {}, 'obligations': 1, 'discharged': 0 if viol else 1, 'violations': viol, 'rejected': rejected,
                'shape': 'history %s %s' % (hist, cfg.method), 'nontrivial': [],
